@@ -2,7 +2,7 @@
 """Mechanical mutation sweep (complements the seeded changes written by sub-agents).
 
 usage (inside a `vp run --with-repo` snapshot, after tools/sweep-style setup):
-    tools/mutate.py <seed> <mutants per property> [PROP ...]
+    tools/mutate.py <seed> <number of surviving mutants to examine> [PROP ...]
 
 For every property the anchored source files (tools/propcfg.py "files") are mutated one token at a time
 (comparison and arithmetic operators flipped, numeric literals scaled or shifted, `min`/`max`, `0`/`1`
@@ -63,43 +63,55 @@ def sh(cmd, cwd, timeout):
 
 
 def main():
-    seed = int(sys.argv[1]); per = int(sys.argv[2]); props = sys.argv[3:] or sorted(propcfg.CFG)
+    seed = int(sys.argv[1]); total = int(sys.argv[2]); only = set(sys.argv[3:])
     rnd = random.Random(seed)
-    env = dict(os.environ, CARGO_NET_OFFLINE="true")
-    for pid in props:
-        files = [f for f in propcfg.CFG[pid].get("files", []) if os.path.exists(os.path.join(REPO, f)) and not f.endswith(("geom2.rs", "geom3.rs", "metrology.rs"))]
-        pool = []
-        for f in files:
-            src = open(os.path.join(REPO, f)).read()
-            pool += [(f, c) for c in candidates(src)]
-        rnd.shuffle(pool)
-        done = 0
-        for (f, (a, b, k)) in pool:
-            if done >= per:
-                break
-            path = os.path.join(REPO, f)
-            src = open(path).read()
-            pat, rep = RULES[k]
-            new = re.sub(pat, rep, src[a:b], count=1)
-            if new == src[a:b]:
+    # a source file is covered by every property that anchors it; a mutant is MISSED only when none of their quick
+    # checks reports a violation
+    owners = {}
+    for pid, cfg in propcfg.CFG.items():
+        for f in cfg.get("files", []):
+            if os.path.exists(os.path.join(REPO, f)) and not f.endswith(("geom2.rs", "geom3.rs", "metrology.rs")):
+                owners.setdefault(f, []).append(pid)
+    pool = []
+    for f in sorted(owners):
+        if only and not (only & set(owners[f])):
+            continue
+        src = open(os.path.join(REPO, f)).read()
+        pool += [(f, c) for c in candidates(src)]
+    rnd.shuffle(pool)
+    done = 0
+    for (f, (a, b, k)) in pool:
+        if done >= total:
+            break
+        path = os.path.join(REPO, f)
+        src = open(path).read()
+        pat, rep = RULES[k]
+        new = re.sub(pat, rep, src[a:b], count=1)
+        if new == src[a:b]:
+            continue
+        line_no = src.count("\n", 0, a) + 1
+        line = src[src.rfind("\n", 0, a) + 1: src.find("\n", a)].strip()
+        fn = ""
+        for m in re.finditer(r"fn\s+([A-Za-z0-9_]+)", src[:a]):
+            fn = m.group(1)
+        open(path, "w").write(src[:a] + new + src[b:])
+        try:
+            rc, out = sh(["cargo", "test", "--offline", "--lib"], REPO, 1200)
+            m = re.search(r"test result: (\w+)\. (\d+) passed; (\d+) failed", out)
+            if rc != 0 or not m or m.group(1) != "ok":
+                print(f"{f}:{line_no} {fn} [{src[a:b]} -> {new}] killed-by-tests-or-compiler", flush=True)
                 continue
-            line_no = src.count("\n", 0, a) + 1
-            line = src[src.rfind("\n", 0, a) + 1: src.find("\n", a)].strip()
-            open(path, "w").write(src[:a] + new + src[b:])
-            try:
-                rc, out = sh(["cargo", "test", "--offline", "--lib"], REPO, 1200)
-                m = re.search(r"test result: (\w+)\. (\d+) passed; (\d+) failed", out)
-                if rc != 0 or not m or m.group(1) != "ok":
-                    print(f"{pid} {f}:{line_no} [{src[a:b]} -> {new}] killed-by-tests-or-compiler", flush=True)
-                    continue
-                done += 1
+            done += 1
+            hits = []
+            for pid in owners[f]:
                 rc, out = sh([os.path.join(ROOT, "check"), pid, "--tier", "quick"], ROOT, 1800)
                 viol = [l for l in out.splitlines() if l.startswith("VIOLATION")]
-                tag = "detected" if viol else "MISSED"
-                nf = " (no-failing-input-found)" if viol and "no-failing-input-found" in viol[0] else ""
-                print(f"{pid} {f}:{line_no} [{src[a:b]} -> {new}] {tag}{nf} | {line[:110]}", flush=True)
-            finally:
-                open(path, "w").write(src)
+                if viol:
+                    hits.append(pid + ("(nf)" if "no-failing-input-found" in viol[0] else ""))
+            tag = "detected by " + ",".join(hits) if hits else "MISSED (" + ",".join(owners[f]) + ")"
+            print(f"{f}:{line_no} {fn} [{src[a:b]} -> {new}] {tag} | {line[:100]}", flush=True)
+        finally:
+            open(path, "w").write(src)
     print("MUTATE-DONE")
 
 
